@@ -157,7 +157,7 @@ pub fn c16(tier: &str) -> i32 {
         g("tokens", 1024, "all token sequences of length <= 3 (thorough: 4) over a 58-token vocabulary (statement keywords, one table, two columns, literals, punctuation)"),
         g("mutations", 256, "every token-prefix, single-token deletion, duplication and substitution by each vocabulary token of 20 valid statements"),
         g("nesting", 1, "parentheses, NOT, unary minus, +, AND, IN-list, VALUES-list and sub-select nesting to depth 1..20000"),
-        g("typed-arith", 512, "every ordered pair of 15 operands (a column of each SQL type INT, BIGINT, UINT, BIGUINT, FLOAT, DOUBLE, TEXT, BOOLEAN and literals 0, 1, -1, 0.0, 2.5, NULL, 'a') under + - * / % = < >= and unary minus, in the select list and in WHERE, against each of 4 rows (zeros, ones, negatives, NULLs)"),
+        g("typed-arith", 512, "every ordered pair of 17 operands (a column of each SQL type INT, BIGINT, UINT, BIGUINT, FLOAT, DOUBLE, TEXT, BOOLEAN and literals 0, 1, -1, 0.0, 2.5, NULL, 'a', 2147483647, 9223372036854775807) under + - * / % = < >= plus unary minus, ABS and SUM/AVG of every operand, in the select list and in WHERE, against each of 6 rows (zeros, ones, negatives, NULLs, the largest and the smallest value of every numeric type)"),
         g("typed", 8, "81 well-formed statements with wrong types, unknown names, zero divisors, NULL arguments, arity errors, HAVING/CASE/sub-queries, 1 MiB literals, against 3 schemas (plain, UNIQUE key, NOT NULL columns): result + probe + data unchanged after an error"),
         g("typed-session", 4, "the same statements at every position (before, between, after) of a three-statement session that must keep working and commit"),
     ];
